@@ -75,6 +75,8 @@ def main():
                         prop = other
                         status = "CAUGHT" if o2.returncode == 1 and v2 else f"HARNESS rc={o2.returncode}"
                         break
+            if meta.get("expect") == "known-miss":
+                status = {"MISSED": "KNOWN-MISS", "CAUGHT": "CAUGHT"}.get(status, status)
             if meta.get("expect") == "conforms":
                 status = {"MISSED": "SILENT-OK", "CAUGHT": "FALSE-ALARM"}.get(status, status)
             rep = ""
@@ -96,7 +98,7 @@ def main():
             meta.setdefault("checks", {})[tier] = {"cmd": f"bin/check {prop} --tier {tier} (VERIF_REPO=scratch copy with patch.diff applied)", "status": status, "oracle": oracle[:1], "replay": rep}
             json.dump(meta, open(os.path.join(d, "meta.json"), "w"), indent=1)
         summary.append((name, status))
-    missed = [n for n, s in summary if s not in ("CAUGHT", "SILENT-OK")]
+    missed = [n for n, s in summary if s not in ("CAUGHT", "SILENT-OK", "KNOWN-MISS")]
     print(f"{len(summary) - len(missed)}/{len(summary)} caught; not caught: {missed}")
     return 1 if missed else 0
 
